@@ -17,7 +17,13 @@ func (h *cmHarness) pickKey(t *rapid.T, label string, base uint64) (k uint64, ki
 	if len(h.ref.keys) == 0 {
 		kinds = []string{"fresh"}
 	}
+	if len(h.ovKeys) > 0 {
+		kinds = append(kinds, "overflow", "overflow")
+	}
 	kind = rapid.SampledFrom(kinds).Draw(t, label+"Kind")
+	if kind == "overflow" {
+		return h.ovKeys[rapid.IntRange(0, len(h.ovKeys)-1).Draw(t, label+"Ov")], "existing"
+	}
 	var e uint64
 	if len(h.ref.keys) > 0 {
 		// bias towards old keys (small index) and the newest ones
@@ -57,9 +63,9 @@ func (h *cmHarness) pickKey(t *rapid.T, label string, base uint64) (k uint64, ki
 }
 
 func TestPropCompactMapModel(t *testing.T) {
-	vlib.Check(t, 800, 30000, func(t *rapid.T) {
+	vlib.Check(t, 800, 16000, func(t *rapid.T) {
 		prelude := rapid.SampledFrom([]string{"none", "none", "none", "run", "run", "run", "run", "run", "run", "full"}).Draw(t, "prelude")
-		h := newCmHarness(prelude != "full")
+		h := newCmHarness(prelude != "full" && rapid.Bool().Draw(t, "withMemDb"))
 		defer h.close()
 		base := rapid.SampledFrom([]uint64{1, 1, 1000, 1<<32 - 300, 1 << 40, 1<<63 + 7, 1<<64 - 1<<34}).Draw(t, "base")
 		withZero := rapid.IntRange(0, 5).Draw(t, "sizeZero") == 0
@@ -84,7 +90,17 @@ func TestPropCompactMapModel(t *testing.T) {
 		case "run":
 			run(base, rapid.IntRange(129, 400).Draw(t, "runN"), uint64(rapid.SampledFrom([]int{1, 2, 3, 10}).Draw(t, "stride")))
 		case "full":
-			run(base, 100000+rapid.IntRange(-3, 40).Draw(t, "fullExtra"), uint64(rapid.SampledFrom([]int{1, 2}).Draw(t, "stride")))
+			n := 100000 + rapid.IntRange(-3, 40).Draw(t, "fullExtra")
+			stride := uint64(rapid.SampledFrom([]int{1, 2}).Draw(t, "stride"))
+			run(base, n, stride)
+			if rapid.Bool().Draw(t, "fullThenBeyond") {
+				// a full section that is not the last one: keys above its last in-order entry go to the end of its overflow list
+				fullLast := base + uint64(min(n, 100000)-1)*stride
+				h.set(t, fullLast+1<<32+5, genUnits().Draw(t, "units"), genSize(false).Draw(t, "size"))
+				for i, m := 0, rapid.IntRange(1, 4).Draw(t, "beyondN"); i < m; i++ {
+					h.set(t, fullLast+uint64(rapid.IntRange(1, 2000).Draw(t, "beyond")), genUnits().Draw(t, "units"), genSize(false).Draw(t, "size"))
+				}
+			}
 		}
 		nOps := rapid.IntRange(1, 70).Draw(t, "nOps")
 		for i := 0; i < nOps; i++ {
@@ -149,6 +165,9 @@ func TestPropCompactMapModel(t *testing.T) {
 		if withZero {
 			classes = append(classes, "compact-size-zero")
 		}
+		if h.db != nil {
+			classes = append(classes, "compact-with-memdb")
+		}
 		vlib.Case(h.fullTrace(), h.outOfOrd || overflow > 0, classes...)
 	})
 }
@@ -173,13 +192,13 @@ type exhOp struct {
 
 // A 140-entry section 1000,1010,...,2390: with counter=140 the look-back window starts at entry 12 (key 1120).
 var exhKeys = []uint64{
-	1055,             // gap below the window: goes to the overflow list
-	1050,             // existing entry below the window
-	2385,             // gap inside the window: inserted in place
-	2390,             // the last entry
-	2395,             // above the last entry: appended
-	1055 + 1<<32,     // 2^32 above the gap key: new section on Set, alias of 1055 on Get/Delete
-	990,              // below the section start: new section in front
+	1055,         // gap below the window: goes to the overflow list
+	1050,         // existing entry below the window
+	2385,         // gap inside the window: inserted in place
+	2390,         // the last entry
+	2395,         // above the last entry: appended
+	1055 + 1<<32, // 2^32 above the gap key: new section on Set, alias of 1055 on Get/Delete
+	990,          // below the section start: new section in front
 }
 
 func exhValue(kind int) (int64, int32) {
@@ -194,21 +213,32 @@ func exhValue(kind int) (int64, int32) {
 }
 
 func TestPropCompactMapExhaustive(t *testing.T) {
-	L := vlib.Pick(3, 4)
-	nOps := len(exhKeys) * 3
+	// quick: the 5 keys that reach distinct code paths, all sequences of <=3 operations;
+	// thorough: all 7 keys with <=3 operations and the 5 keys with <=4 operations.
+	five := []uint64{exhKeys[0], exhKeys[1], exhKeys[2], exhKeys[5], exhKeys[6]}
+	item := 0
+	if vlib.Thorough() {
+		exhaustive(t, exhKeys, 3, &item)
+		exhaustive(t, five, 4, &item)
+	} else {
+		exhaustive(t, five, 3, &item)
+	}
+}
+
+func exhaustive(t *testing.T, keys []uint64, L int, item *int) {
+	nOps := len(keys) * 3
 	total := 0
 	for l, p := 1, nOps; l <= L; l, p = l+1, p*nOps {
 		total += p
 	}
-	item := 0
 	for l := 1; l <= L; l++ {
 		count := 1
 		for i := 0; i < l; i++ {
 			count *= nOps
 		}
 		for c := 0; c < count; c++ {
-			item++
-			if !vlib.ShardOwns(item) {
+			*item++
+			if !vlib.ShardOwns(*item) {
 				continue
 			}
 			seq := make([]exhOp, l)
@@ -227,7 +257,7 @@ func TestPropCompactMapExhaustive(t *testing.T) {
 			h.outOfOrd = false
 			excluded := false
 			for _, o := range seq {
-				k := exhKeys[o.key]
+				k := keys[o.key]
 				if o.kind == 2 {
 					excluded = h.del(t, k)
 				} else {
@@ -251,5 +281,5 @@ func TestPropCompactMapExhaustive(t *testing.T) {
 			vlib.Case(h.fullTrace(), h.outOfOrd || overflow > 0, "compact-exhaustive")
 		}
 	}
-	vlib.Exhaustive(fmt.Sprintf("compactmap-7keys-x-{set1,set2,delete}-len<=%d (%d sequences)", L, total), true)
+	vlib.Exhaustive(fmt.Sprintf("compactmap-%dkeys-x-{set1,set2,delete}-len<=%d (%d sequences)", len(keys), L, total), true)
 }
